@@ -302,6 +302,10 @@ class Canon:
                 elif e[0] == "call" and re.search(r"FromResidual>::from_residual$", strip_generics(e[1])):
                     v = {"Err", "None"}
                 if v is None:
+                    if labels <= {"true", "false"} and len(labels) == 1:
+                        # the helper returns a boolean expression: on a `labels` result that expression has this truth value
+                        sets.append(set(hc.guards(s.bb)) | set(atoms_of(e, labels)))
+                        continue
                     sets = None          # a return value we cannot classify: derive nothing
                     break
                 if v & labels:
@@ -532,6 +536,40 @@ def result_edges(cx, call_bb):
                     elif a[2] <= {"Err", "None"}:
                         err.add((bi, tgt))
     return ok, err
+
+
+def deep_calls(cx, callee_pat, recv_pat=None):
+    """Call sites of `callee_pat` (optionally with a first argument matching recv_pat) in cx's body, *or one level down* in a
+    crate-local helper called from it.  Returns list of (site in cx.b, canonical args in cx's frame, (min, max) occurrences per
+    execution of that site: (1, 1) for a direct call, the path count inside the helper otherwise, callee name)."""
+    from . import lib as _lib
+    crx = re.compile(callee_pat)
+    rrx = re.compile(recv_pat) if recv_pat else None
+    out = []
+    for s in cx.b.call_sites():
+        n = strip_generics(cx.b.call_name(s.term))
+        if TRANSPARENT.search(n):
+            continue
+        a = cx.args(s)
+        if crx.search(n):
+            if rrx is None or (a and rrx.search(render(a[0]))):
+                out.append((s, a, (1, 1), n))
+            continue
+        hc = cx.helper(("call", cx.b.call_name(s.term), tuple(a), s.bb))
+        if hc is None:
+            continue
+        groups = {}
+        for hs in hc.b.call_sites():
+            hn = strip_generics(hc.b.call_name(hs.term))
+            if not crx.search(hn):
+                continue
+            ha = hc.args(hs)
+            if rrx is None or (ha and rrx.search(render(ha[0]))):
+                groups.setdefault((hn, tuple(render(x) for x in ha)), []).append((hs, ha))
+        for (hn, _), lst in groups.items():
+            got = _lib.count_range(hc.b, [0], hc.b.return_blocks(), [x[0].bb for x in lst])
+            out.append((s, lst[0][1], got or (0, 0), hn))
+    return out
 
 
 def counter_profile(cx, l):
